@@ -1,7 +1,10 @@
 package main
 
 import (
+	"fmt"
+	"go/types"
 	"os"
+	"strings"
 
 	"golang.org/x/tools/go/ssa"
 )
@@ -47,6 +50,88 @@ func checkC32(c *Ctx) (string, []string) {
 		"ret#0.ExportsRoot":  {"internal/utilities/merkle_tree.M(⊕(make([]internal/types.ByteSequence, 0); [p2[*][:]][:]), internal/utilities/hash.Blake2bHash)"},
 		"ret#0.ErasureRoot":  {"internal/work_package.ComputeErasureRoot(p1, p2)#0"},
 	})
+	// the outcome of one item's refinement (GP 14.11), as a table over the three tests in their order of precedence:
+	// oversize first, then a wrong number of exports, then the refinement's own failure
+	c.Rule("C32.refine-outcome", "I, followed for the 8 valuations of (report oversize, export count differs, refinement failed): the digest result is report-oversize if the first holds, else bad-exports if the second holds, else the refinement's own result; exports are handed on only when none holds", 8)
+	{
+		kOversize, kBad := "", ""
+		if k, ok := c.Obj("internal/types", "WorkExecResultReportOversize").(*types.Const); ok {
+			kOversize = k.Val().ExactString()
+		}
+		if k, ok := c.Obj("internal/types", "WorkExecResultBadExports").(*types.Const); ok {
+			kBad = k.Val().ExactString()
+		}
+		for m := 0; m < 8; m++ {
+			over, mism, fail := m&1 == 1, m&2 == 2, m&4 == 4
+			b2i := func(b bool) (int64, bool) {
+				if b {
+					return 1, true
+				}
+				return 0, true
+			}
+			var ret *ssa.Return
+			var choice map[*ssa.Phi]ssa.Value
+			lastType := ""
+			_, ok := runWithAtomsChoice(fI, shapeOpts, func(s string) (int64, bool) {
+				switch {
+				case s == "p1":
+					return 0, true
+				case strings.Contains(s, "49152") || strings.Contains(s, "WorkReportOutputBlobsMaximumSize"):
+					if strings.Contains(s, " <= ") && strings.HasPrefix(s, "((") { // sum <= limit
+						return b2i(!over)
+					}
+					return b2i(over)
+				case strings.Contains(s, "ExportCount") && strings.Contains(s, "ExportSegment"):
+					if strings.Contains(s, " == ") {
+						return b2i(!mism)
+					}
+					return b2i(mism)
+				case strings.Contains(s, ".WorkResult") && strings.Contains(s, "\"ok\""):
+					if strings.Contains(s, " == ") {
+						return b2i(!fail)
+					}
+					return b2i(fail)
+				}
+				return 0, false
+			}, func(in ssa.Instruction, ch map[*ssa.Phi]ssa.Value) {
+				if r, isR := in.(*ssa.Return); isR {
+					ret, choice = r, ch
+				}
+				// the result record may be assembled in a variable: the last Type written on the way counts
+				if st, isSt := in.(*ssa.Store); isSt {
+					if fa, isFA := st.Addr.(*ssa.FieldAddr); isFA && fieldName(fa.X.Type(), fa.Field) == "Type" && hasSuffixType(derefType(fa.X.Type()), "types.WorkExecResult") {
+						lastType = exprStr(resolveChoice(st.Val, ch), shapeOpts)
+					} else if hasSuffixType(st.Val.Type(), "types.WorkExecResult") {
+						if flds := structLiteralFields(st.Val); flds != nil && flds["Type"] != nil {
+							lastType = exprStr(resolveChoice(flds["Type"], ch), shapeOpts)
+						}
+					}
+				}
+			})
+			key := fmt.Sprintf("internal/work_package.I · oversize=%v exports differ=%v refinement failed=%v", over, mism, fail)
+			if !ok || ret == nil || len(ret.Results) != 3 {
+				c.Bad("C32.refine-outcome", key, fI.Pos(), "the outcome is not decided by the three tests (conditions: %s)", strings.Join(condShapes(fI), " ; "))
+				continue
+			}
+			typ := "?"
+			if lastType != "" {
+				typ = lastType
+			} else if flds := structLiteralFields(ret.Results[0]); flds != nil && flds["Type"] != nil {
+				typ = exprStr(resolveChoice(flds["Type"], choice), shapeOpts)
+			}
+			want := ""
+			switch {
+			case over:
+				want = kOversize
+			case mism:
+				want = kBad
+			}
+			okType := typ == want || want == "" && strings.HasSuffix(typ, ".WorkResult")
+			exp := exprStr(resolveChoice(ret.Results[2], choice), shapeOpts)
+			okExp := (!over && !mism && !fail) == strings.HasSuffix(exp, ".ExportSegment")
+			c.Check(okType && okExp, "C32.refine-outcome", key, ret.Pos(), "result "+typ, fmt.Sprintf("the digest result is %s and the exports handed on are %s; GP 14.11 gives %s", typ, abbr(exp), map[bool]string{true: "the refinement's own result", false: want}[want == ""]))
+		}
+	}
 	// refine accounting
 	isCall := func(name string) func(ssa.CallInstruction) bool {
 		o := c.Obj(wpPkg, name)
